@@ -79,13 +79,17 @@ CHECKS = {
   text="Bounded symbolic model checking of the lock manager alone: 14 populations of 2-3 requests with read/write sets over two accounts, optionally one request cancelled by a separate thread at an arbitrary moment; every schedule with at most 1 (thorough 2) pre-emptions at statement boundaries of lock.go and linked_list.go, all blocking switches and select choices explored; exclusion when Lock returns, progress and no leftover lock or queued intent at quiescence.",
   note="The inputs are schedules and cancellation moments (decisions); the solver's part is feasibility. Counterexample schedules are replayed natively by the schedule controller.",
   ref="DESIGN §5 C15"),
+ "C17": dict(
+  text="Bounded symbolic model checking of bunpaginate over an abstract ordered table: for collections of 0..4 rows with arbitrary increasing ids, every page size 1..n+1 and both orders, UsingColumn is followed through `next` until hasMore is false (each row exactly once, in order) and back through `previous` (the page before), every cursor being decoded again with UnmarshalCursor; UsingOffset's one-step law (page contents count, hasMore, next/previous offsets) is decided for arbitrary 64-bit offset and page size <= MaxPageSize; cursors of the transactions/accounts/logs listings with filters are encoded, decoded and must build the same WHERE clause.",
+  note="*bun.SelectQuery is modelled as an ordered relation (Where/OrderExpr/Offset/Limit/Scan); bun's SQL generation and PostgreSQL are outside the claim; natively the replays run against a fake database/sql driver that parses the statements bun emits. reflect is answered from go/types; JSON/base64 are models.",
+  ref="DESIGN §5 C17"),
 }
 
 NA = {
  "C04": "the projection of logs into balances/volumes is PL/pgSQL executed by PostgreSQL; there is no Go code to encode and no PostgreSQL in the sandbox (DESIGN §6)",
 }
 
-PENDING = {'C17': 'check under construction in this session (engine built; harness not yet registered) — listed here until its check runs clean', }
+PENDING = {}
 
 def main():
     checks = []
